@@ -134,7 +134,7 @@ type reader struct {
 	expectChunk         bool
 	expectedChunkLength uint32
 	runningStatus       runningstatus.Reader
-	processedTracks     int16
+	processedTracks     int32
 	deltatime           uint32
 	headerIsRead        bool
 	error               error
@@ -146,7 +146,7 @@ func (r *reader) Delta() uint32 {
 }
 
 // Track returns the track for the last MIDI message
-func (r *reader) Track() int16 {
+func (r *reader) Track() int32 {
 	return r.processedTracks
 }
 
